@@ -3,6 +3,7 @@ From Coq Require Import ZArith Reals List Bool Arith Permutation Relations.
 From EG Require Import Num.Num Num.RNum Lib.Vec Model.MeshTopo Model.MeshGeom.
 From EG Require Import Proofs.MeshEdges Proofs.MeshLoops Proofs.MeshLoopsClosed Proofs.MeshPatches
                        Proofs.MeshPatchesConn Proofs.MeshClusters Proofs.MeshClustersConn Proofs.MeshChains Proofs.MeshGeom.
+From EG Require Model.PatchLoops Proofs.PatchLoops.
 Import ListNotations.
 
 (* ---- edge table ---- *)
@@ -115,3 +116,11 @@ Example C12_bowtie :
   identify_edges [(0, 1, 2); (2, 4, 3)] =
   IE_Ok [(0, 1); (0, 2); (1, 2); (2, 3); (2, 4); (3, 4)] [(2, 1, 0); (5, 3, 4)] [[0; 2; 1]; [2; 3; 4]].
 Proof. vm_compute. reflexivity. Qed.
+
+(* the boundary walk of patches.rs (get_patch_boundary_points): when the boundary of a patch is a disjoint union of directed cycles
+   the loops returned use every boundary edge exactly once, as closed cycles, whatever key the hash map yields first *)
+Theorem C12_patch_boundary_loops : forall (pick : Model.PatchLoops.omap -> option nat) (m : Model.PatchLoops.omap),
+  Proofs.PatchLoops.fair_pick pick -> Proofs.PatchLoops.cycles_map m ->
+  Permutation (flat_map Model.PatchLoops.cyc_edges (Model.PatchLoops.boundary_loops_of pick m)) m.
+Proof. exact Proofs.PatchLoops.boundary_loops_exactly_once. Qed.
+Print Assumptions C12_patch_boundary_loops.
